@@ -39,6 +39,10 @@ CHECKS = {
  "C14": dict(cat="exploration", tech="round-trip property-based testing over payload x algorithm x level, codec values, and the wire composition; invalid-input rejection",
      text="decompress(compress(x)) == x for generated payload shapes and every supported algorithm/mode/level incl. presets, decode(encode(v)) == v for the three codecs, the full encode->batch->compress->decompress->unbatch->decode composition, and invalid UTF-8 / truncated bincode must be errors.",
      note="Levels outside the libraries' documented ranges are out of domain.", ref="§5 C14"),
+
+ "C03": dict(cat="exploration", tech="configuration x workload property-based testing through the real client library and the real server over loopback QUIC: round-trip oracle with probe warm-up, in-band end marker and liveness probe",
+     text="Generated client configurations (codec x compression algorithm/level x batching size/interval x 1-3 subscribers) and workloads (item counts around the batch size, payload sizes from 0 to just under the frame limit) are published through selium::Publisher and must be yielded by every warmed-up selium::Subscriber exactly, in order, once; finish() must return Ok and everything accepted before it must arrive.",
+     note="Real multi-threaded runtime and UDP: the oracle is timing-independent; 'did not arrive' is only a violation when a later probe on the same path did arrive. Batch sizes above 100000 and batches over the frame limit are outside the generated domain.", ref="§5 C03"),
 }
 PENDING = {}
 ALL = ["C%02d" % i for i in range(1, 18)]
